@@ -17,7 +17,12 @@ RULE = ("systems drawn in modal space as lists of modes with a regime label (und
         "one-step map of the augmented linear system propagated in mpmath (refs/ode_exact), compared on "
         "d, v, a in physical coordinates; equation-of-motion residual; SolveUnc == SolveExp2 == SolveExp1. "
         "Tolerances graded by the documented conditioning (w_d*h, eigenvector cond, damped-rb cut-offs). "
-        "Non-trivial: nt>=3, a non-zero force after t=0 and >=1 dynamic mode.")
+        "The eigen path also gets a zero-stiffness damped mode that is not declared rigid-body (eigenvalues 0 and "
+        "-b/m with |lambda| h on both sides of the 5e-5 zero-eigenvalue switch, small steps) and free-decay cases "
+        "(zero force, random initial state: only exp(lambda h) is exercised, so the eps/|lambda h|^2 cancellation "
+        "of the forcing coefficients does not enter the tolerance); rbd_grid enumerates damped rigid-body modes "
+        "across both damping cut-offs x step x order x forced/free.  "
+        "Non-trivial: nt>=3, >=1 dynamic mode and a non-zero force after t=0 or a non-zero initial state.")
 ASSUME = ["mpmath expm at 40 digits", "repeated eigenvalues are not generated for the complex-eigen path "
           "(documented limitation)"]
 KNOWN = {}
@@ -31,7 +36,7 @@ def mode_params(md, h):
     reg = md["reg"]
     if reg == "rb":
         return m, 0.0, 0.0
-    if reg == "rbd":
+    if reg in ("rbd", "slow"):
         return m, 2.0 * md["C"] * m, 0.0
     w = md["wh"] / h
     return m, 2.0 * md["zeta"] * w * m, m * w * w
@@ -120,7 +125,14 @@ def oracle(case, R):
         R.label("reg=" + md["reg"])
     R.label(f"form={form}", f"order={order}", f"m={case['mform']}", "pre_eig" if case.get("pre_eig") else "no_pre_eig",
             "rb_given" if case.get("rb_given") else "rb_auto", f"ic={case['ic']}")
-    R.nontrivial(nt >= 3 and np.any(S["F"][:, 1:] != 0) and len(dyn) >= 1)
+    free = not np.any(S["F"])
+    R.nontrivial(nt >= 3 and len(dyn) >= 1 and
+                 (np.any(S["F"][:, 1:] != 0) or (case["ic"] == "random" and (np.any(S["d0"]) or np.any(S["v0"])))))
+    if free:
+        R.label("free_decay")
+    if any(md["reg"] == "slow" for md in case["modes"]):
+        R.label("reg=slow:|lambda|h<5e-5" if any(md["reg"] == "slow" and 2 * md["C"] * h < 5e-5 for md in case["modes"])
+                else "reg=slow:|lambda|h>=5e-5")
 
     # ---------- exact modal reference
     Mm, Bm, Km = np.diag(S["m"]), S["Bm"], np.diag(S["k"])
@@ -223,13 +235,17 @@ def oracle(case, R):
                       [np.eye(len(el)), np.zeros((len(el), len(el)))]]) * h
         lam, V = la.eig(A)
         V = V / np.linalg.norm(V, axis=0)
-        xmin = np.abs(lam).min()
-        # coefficient formulas of the eigen path cancel like eps/|lambda h|^2; modes with
-        # |lambda| < 5e-5 are treated as rigid body by the code (documented trial-and-error switch)
+        # an exactly zero eigenvalue (zero-stiffness mode with damping, e.g. a damped rigid-body motion handed
+        # to the eigen path) is integrated exactly; eigenvalues with 0 < |lambda| < 5e-5 are treated as zero by
+        # the code (documented trial-and-error switch): keep a decade away from it
+        nz = np.abs(lam) > 1e-13 * max(1.0, np.abs(lam).max())
+        xmin = np.abs(lam[nz]).min() if np.any(nz) else 1.0
         if xmin / h < 5e-4:
             R.label("out_of_domain:eig_path_near_rb_switch")
             return
-        kap_eig = np.linalg.cond(V) * (1.0 + np.abs(lam).max()) / min(1.0, xmin ** 2)
+        # the forcing coefficients of the eigen path cancel like eps/|lambda h|^2; the homogeneous part
+        # (exp(lambda h)) does not, so free decay is held to the eigenvector conditioning alone
+        kap_eig = np.linalg.cond(V) * (1.0 + np.abs(lam).max()) / (1.0 if free else min(1.0, xmin ** 2))
         gap = np.min(np.abs(lam[:, None] - lam[None, :]) + np.eye(len(lam)) * 1e9) / max(1.0, np.abs(lam).max())
         if gap < 1e-6:
             R.label("out_of_domain:repeated_roots")
@@ -304,7 +320,9 @@ def oracle(case, R):
     tsu = ode.SolveUnc(M_in, B_in, K_in, h, **kw)
     sols["su"] = tsu.tsolve(F_in, d0_in, v0_in, static_ic=static_ic)
     R.label("su_unc" if tsu.unc else "su_coupled")
-    if tsu.unc and tsu.systype is float:
+    if tsu.unc and any(md["reg"] == "slow" for md in case["modes"]):
+        R.label("out_of_domain:undeclared_zero_stiffness_mode_on_uncoupled_path")
+    elif tsu.unc and tsu.systype is float:
         if scope:
             compare(sols["su"], "SolveUnc_unc", kap_unc, model)
         else:
@@ -328,11 +346,13 @@ CTOL = 1000.0    # calibrated: worst normalised error on the unchanged tree ~10 
 
 
 REGS = ["under", "under", "over", "crit", "nearcrit", "rb", "rbd", "rf"]
+# "slow": zero stiffness + damping, NOT declared rigid-body (eigen path: eigenvalues 0 and -b/m), b/m from just
+# above the zero-eigenvalue switch (5e-5) upwards, i.e. |lambda| h on both sides of 5e-5 for small steps
 
 
 @st.composite
 def mode(draw, h, allow, mass_one):
-    reg = draw(st.sampled_from([r for r in REGS if r in allow]))
+    reg = draw(st.sampled_from([r for r in REGS + ["slow"] if r in allow]))
     md = {"reg": reg, "m": 1.0 if mass_one else draw(st.sampled_from([1.0, 0.5, 2.0, 10.0, 0.1]))}
     if reg in ("under", "over", "crit", "nearcrit", "rf"):
         md["wh"] = 10.0 ** draw(st.floats(-2, 1.7)) if draw(st.integers(0, 4)) else 10.0 ** draw(st.floats(-3, -2))
@@ -349,6 +369,10 @@ def mode(draw, h, allow, mass_one):
     elif reg == "rf":
         md["zeta"] = draw(st.sampled_from([0.0, 0.05, 2.0]))
         md["wh"] = 10.0 ** draw(st.floats(0.5, 2))
+    elif reg == "slow":
+        # lambda = -2C with |lambda| h on both sides of 5e-5 (atoms next to it), |lambda| >= 1e-3
+        x = 5e-5 * draw(st.sampled_from([0.03, 0.1, 0.3, 0.6, 0.9, 0.99, 1.01, 1.1, 2.0, 5.0, 20.0, 100.0, 1e3, 1e4]))
+        md["C"] = float(0.5 * max(x / h, 1e-3))
     elif reg == "rbd":
         c1 = 1e-5 / np.sqrt(h)
         c2 = 10 * (1e-10 / h) ** (1 / 3)
@@ -367,6 +391,9 @@ def cases(draw, form):
     elif form == "nonprop":
         allow = ["under", "over", "rb", "rf"]
         nmax = 4
+        slow = draw(st.integers(0, 3)) == 0
+        if slow:
+            h = 10.0 ** draw(st.floats(-3, -1.5))      # small steps: |lambda| h < 5e-5 with |lambda| >= 1e-3
     else:
         allow = ["under", "over", "rb", "rf"]
         nmax = 4
@@ -377,7 +404,20 @@ def cases(draw, form):
         for i in (0, 1):
             if modes[i]["reg"] not in ("under", "over"):
                 modes[i] = draw(mode(h, ["under", "over"], mform == "none"))
+    has_slow = False
+    if form == "nonprop" and slow and n >= 3:
+        # one zero-stiffness damped mode in the elastic block of a system that takes the eigen path (two
+        # coupled elastic modes besides it; on the uncoupled path such a mode has to be declared rigid-body:
+        # regime "rbd").  Auto-detection of rigid-body modes (|k| and |b| < 0.005) must not claim it:
+        # b = 2 C m >= 0.02 unless the rb set is given explicitly
+        for i in (0, 1):
+            if modes[i]["reg"] not in ("under", "over"):
+                modes[i] = draw(mode(h, ["under", "over"], mform == "none"))
+        modes[-1] = draw(mode(h, ["slow"], mform == "none"))
+        has_slow = True
     rb_given = draw(st.booleans()) if form != "physical" else False
+    if has_slow and 2.0 * modes[-1]["C"] * modes[-1]["m"] < 0.02:
+        rb_given = True
     # auto-detection of rb needs elastic k >= 0.005 (documented rule): keep k >= 0.02
     if not rb_given or form == "physical":
         for md in modes:
@@ -406,17 +446,50 @@ def cases(draw, form):
     has_rf = any(md["reg"] == "rf" for md in modes)
     pre_eig = (form == "physical") and (has_rb or has_rf or draw(st.booleans()))
     ic = draw(st.sampled_from(["zero", "random", "random", "static"]))
+    fscale = draw(st.sampled_from([1.0, 1e-3, 1e3, 1.0, 0.0]))
+    if has_slow and ic == "static":
+        ic = "random"
+    if has_slow and draw(st.booleans()):
+        fscale = 0.0
+    if fscale == 0.0:
+        ic = "random"
     return {"form": form, "h": h, "modes": modes, "nt": draw(st.integers(2, 40)),
             "order": draw(st.sampled_from([0, 1])), "seed": draw(st.integers(0, 2 ** 31)),
             "mform": mform, "rb_given": rb_given, "perm": draw(st.booleans()),
             "bvec": draw(st.booleans()), "kvec": draw(st.booleans()), "pre_eig": pre_eig, "ic": ic,
-            "fscale": draw(st.sampled_from([1.0, 1e-3, 1e3])), "icscale": draw(st.sampled_from([1.0, 1e-2])),
+            "fscale": fscale, "icscale": draw(st.sampled_from([1.0, 1e-2])),
             "f0zero": draw(st.booleans()), "cpl": draw(st.sampled_from([0.05, 0.3, 0.8])),
             "physnonprop": form == "physical" and draw(st.booleans())}
 
 
+def enum_rbd(shard, nshards, tier):
+    """damped rigid-body modes on a grid across both documented cut-offs (C = b/2m relative to
+    c1 = 1e-5/sqrt(h) and c2 = 10 (1e-10/h)^(1/3)) x step x order x forced / free decay, alone and next to an
+    elastic mode"""
+    k = 0
+    for h in (1e-3, 1e-2, 0.1, 1.0):
+        c1 = 1e-5 / np.sqrt(h)
+        c2 = 10 * (1e-10 / h) ** (1 / 3)
+        for C in [c1 * f for f in (0.5, 0.99, 1.01, 2.0, 5.0, 30.0, 100.0, 300.0)] + \
+                 [c2 * f for f in (0.5, 0.99, 1.01, 2.0, 10.0)] + [1.0, 10.0]:
+            for order in (0, 1):
+                for fscale in (1.0, 0.0):
+                    for extra in (False, True):
+                        modes = [{"reg": "rbd", "m": 2.0, "C": float(C)}]
+                        if extra:
+                            modes.append({"reg": "under", "m": 1.0, "wh": 0.3, "zeta": 0.02})
+                        case = {"form": "diag", "h": h, "modes": modes, "nt": 40, "order": order, "seed": 1000 + k,
+                                "mform": "vec", "rb_given": True, "perm": False, "bvec": True, "kvec": True,
+                                "pre_eig": False, "ic": "random", "fscale": fscale, "icscale": 1.0, "f0zero": False,
+                                "cpl": 0.05, "physnonprop": False}
+                        if k % nshards == shard:
+                            yield case
+                        k += 1
+
+
 PARTS = [
+    Part("rbd_grid", oracle, enum=enum_rbd, quick=(4, None), thorough=(4, None), exhaustive=True),
     Part("diag", oracle, strategy=lambda: cases("diag"), quick=(8, 120), thorough=(16, 2500)),
-    Part("nonprop", oracle, strategy=lambda: cases("nonprop"), quick=(4, 80), thorough=(16, 1000)),
-    Part("physical", oracle, strategy=lambda: cases("physical"), quick=(4, 80), thorough=(16, 1000)),
+    Part("nonprop", oracle, strategy=lambda: cases("nonprop"), quick=(8, 80), thorough=(16, 1000)),
+    Part("physical", oracle, strategy=lambda: cases("physical"), quick=(8, 80), thorough=(16, 1000)),
 ]
